@@ -223,7 +223,12 @@ func Templates() []Template {
 			// a plain account is turned into a vesting account whose already vested part is staked at once
 			to := sdk.AccAddress(world.Key(53).PubKey().Address().Bytes())
 			amt := coins(world.Denom, 400)
-			vest := sdkvesting.Periods{{Length: 10, Amount: amt}, {Length: 100000, Amount: amt}}
+			// the rest vests in half-year steps over twenty years: whatever a node's wall clock says, it
+			// lies somewhere inside this schedule, and two clocks 400 days apart lie in different steps
+			vest := sdkvesting.Periods{{Length: 10, Amount: amt}}
+			for i := 0; i < 40; i++ {
+				vest = append(vest, sdkvesting.Period{Length: 180 * 86400, Amount: coins(world.Denom, 10)})
+			}
 			return [][]byte{cosmosTx(w, 1, vtypes.NewMsgConvertIntoVestingAccount(A(w, 1), to, w.Header.Time.Add(-15*time.Second), nil, vest, true, true, w.ValAddr[0]))}
 		}},
 		{Name: "vestingEvmSpend", Steps: func() []func(w *world.World, _ precomp.ABIs) []byte {
